@@ -11,6 +11,7 @@ import (
 	"verifharness/checks/c02"
 	"verifharness/checks/c03"
 	"verifharness/checks/c04"
+	"verifharness/checks/c05"
 	"verifharness/checks/c06"
 	"verifharness/checks/c07"
 	"verifharness/checks/c08"
@@ -23,6 +24,7 @@ import (
 	"verifharness/checks/c15"
 	"verifharness/checks/c18"
 	"verifharness/checks/c19"
+	"verifharness/checks/c20"
 	"verifharness/core"
 )
 
@@ -36,6 +38,7 @@ var table = map[string]entry{
 	"C02": {"exploration", c02.Run},
 	"C03": {"fault_enumeration", c03.Run},
 	"C04": {"fault_enumeration", c04.Run},
+	"C05": {"exploration", c05.Run},
 	"C06": {"fault_enumeration", c06.Run},
 	"C07": {"exploration", c07.Run},
 	"C08": {"exploration", c08.Run},
@@ -48,6 +51,7 @@ var table = map[string]entry{
 	"C15": {"exploration", c15.Run},
 	"C18": {"exploration", c18.Run},
 	"C19": {"exploration", c19.Run},
+	"C20": {"exploration", c20.Run},
 }
 
 func main() {
